@@ -471,6 +471,38 @@ def main(rep):
                                           "what": "the table translated from src/config-static.c is not what the compiled getters answer"})
                 else:
                     validated += 2
+        # "new queue location": after an accepted rewrite with another queue_path the entry of the next accepted write
+        # appears beneath THAT directory (monitor queue_in_force, shared with C09)
+        qcases = []
+        if not found:
+            import copy
+            import random
+            import check_C09          # registers the monitor
+            import world_common as wc
+            rngq = random.Random(rep.seed + 16)
+            for i in range(6 if rep.tier == "quick" else 40):
+                s = wc.Script()
+                cfg = wc.setup_world(s, wc.base_cfg(deb=rngq.choice([0, 2])))
+                s.start()
+                s.exec(3, wc.X + "/vim")
+                if rngq.random() < 0.5:
+                    # something is already pending in the old queue when it is moved
+                    s.put(wc.WATCH + "/inc/old.txt", "pending")
+                    s.write(3, wc.WATCH + "/inc/old.txt")
+                c2 = copy.deepcopy(cfg)
+                c2.queue = wc.R + "/k/var/queue%d" % rngq.choice([2, 3])
+                s.config(c2)
+                s.write(rngq.choice([3, 9]), wc.CFG_PATH)
+                s.dump()
+                f_ = rngq.choice([wc.WATCH + "/inc/a.txt", wc.WATCH + "/n"])
+                s.put(f_, "after the move %d" % i)
+                s.dump()
+                s.write(3, f_)
+                s.dump()
+                qcases.append(("qm%d" % i, s.text(), {"queue_after": c2.queue[len(wc.R):]}))
+            fq, vq = wk.run_cases(rep, exe_impl, exe_model, qcases, ["queue_in_force", "fault_reported"], what="queue")
+            found = found or fq
+            validated += vq
         rc = reload_cases(rep.tier, rep.seed)
         if not found:
             f, v = wk.run_cases(rep, exe_impl, exe_model, rc, ["reload", "editor_kept", "journal", "bursts", "queue_form", "fault_reported"])
@@ -481,7 +513,7 @@ def main(rep):
             if not found:
                 rep.violation("driver", {"what": p}, found_input=False)
                 found = True
-        total = len(scripts) + len(rc) + nstatic
+        total = len(scripts) + len(rc) + nstatic + len(qcases)
     else:
         total = len(scripts)
     kinds = {}
